@@ -1,6 +1,10 @@
 package redis
 
-import "github.com/mgtv-tech/redis-GunYu/pkg/digest"
+import (
+	"strings"
+
+	"github.com/mgtv-tech/redis-GunYu/pkg/digest"
+)
 
 type SlotOwner struct {
 	Master            string
@@ -10,19 +14,12 @@ type SlotOwner struct {
 }
 
 func KeyToSlot(key string) uint16 {
-	hashtag := ""
-	for i, s := range key {
-		if s == '{' {
-			for k := i; k < len(key); k++ {
-				if key[k] == '}' {
-					hashtag = key[i+1 : k]
-					break
-				}
-			}
+	// Redis Cluster HASH_SLOT: hash only what is between the first '{' and the first
+	// '}' after it, if that is not empty; otherwise hash the whole key.
+	if s := strings.IndexByte(key, '{'); s >= 0 {
+		if e := strings.IndexByte(key[s+1:], '}'); e > 0 {
+			key = key[s+1 : s+1+e]
 		}
-	}
-	if len(hashtag) > 0 {
-		return digest.Crc16(hashtag) & 0x3fff
 	}
 	return digest.Crc16(key) & 0x3fff
 }
